@@ -246,6 +246,8 @@ def gen_cases(rng, tier):
                 b"\x06" + sec1(Q, False)[1:], b"\x07" + sec1(Q, False)[1:], b"\x02" + P.to_bytes(32, "big"),
                 b"\x02" + (5).to_bytes(32, "big"), b"\x04" + Q[0].to_bytes(32, "big") + ((Q[1] + 1) % P).to_bytes(32, "big"),
                 b"\x05" + sec1(Q, True)[1:], b"\x00" * 33, b"\x03" + b"\xff" * 32]
+    import c03
+    bad_keys += c03.congruent_keys(3)          # 04||x0+p||y: curve equation holds mod p, coordinate out of range
     for pk in bad_keys:
         out.append(case("secp-sigv-bad-key", "sig_verify", "secp", sgv, pk, b"m", False))
         out.append(case("secp-point-bad", "point", "secp", pk, strict=True))
